@@ -249,13 +249,14 @@ def revLoop (tol : Rat) : Nat → Factor → Op → Op → Op
     | some p => revLoop tol fuel p working acc
     | none => acc
 
+/-- the `transformed_term` of one Pauli string (before the overall coefficient is applied) -/
+def revTerm (term : Term) : Op :=
+  match term.getLast? with
+  | none => mk .fermion [] 1
+  | some last => revLoop tol (last.1 + 1) last (mk .qubit term 1) (mk .fermion [] 1)
+
 def reverseJW (Q : Op) : Op :=
-  Q.foldl (fun res (term, coeff) =>
-    let tt : Op :=
-      match term.getLast? with
-      | none => mk .fermion [] 1
-      | some last => revLoop tol (last.1 + 1) last (mk .qubit term 1) (mk .fermion [] 1)
-    iadd tol res (smul coeff tt)) []
+  Q.foldl (fun res (term, coeff) => iadd tol res (smul coeff (revTerm tol term))) []
 
 end
 
@@ -295,6 +296,8 @@ def jwOneBodyOk (tol : Rat) (p q : Nat) (c : GQ) : Bool := sumOk tol (oneBodyImg
 def plain (so : Bool × Op) : Op := if so.1 then so.2 else so.2.map fun tc => (tc.1, -tc.2)
 
 def jwTwoBodyOk (tol : Rat) (p q r s : Nat) (c : GQ) : Bool := sumOk tol ((twoBodyOps p q r s c).map plain)
+
+def reverseJWOk (tol : Rat) (Q : Op) : Bool := sumOk tol (Q.map fun tc => smul tc.2 (revTerm tol tc.1))
 
 /-- `acc = acc0; for img in imgs: acc += img` — were all the `+=` exact? -/
 def sumOkFrom (tol : Rat) (acc0 : Op) (imgs : List Op) : Bool :=
